@@ -322,7 +322,26 @@ var interestingFloats = []float64{0, math.Copysign(0, -1), 1, -1, 1.5, -1.5, 0.1
 	float64(math.MaxInt64), float64(math.MinInt64), 3.141592653589793, 2.718281828459045, 1e5, 1e7, -1e6, -999999.5, 33.0, -7.0}
 
 func (r *R) finiteFloat() float64 {
-	switch r.Intn(5) {
+	switch r.Intn(6) {
+	case 5:
+		// values that came through a narrower type: float64(float32(x)) (24-bit mantissa, float32 exponent range), the float32
+		// boundaries, and float64(int32/int64 boundary +- 1): exactly representable in the narrow type, seldom hit by chance
+		switch r.Intn(4) {
+		case 0:
+			return float64(float32((r.Float64() - 0.5) * math.Pow(10, float64(r.Intn(60)-30))))
+		case 1:
+			return pickOf(r, []float64{float64(float32(0.1)), float64(float32(1) / 3), math.MaxFloat32, -math.MaxFloat32, math.SmallestNonzeroFloat32,
+				float64(float32(16777217)), float64(float32(3.4e38)), float64(float32(1e-40)), float64(float32(0.7)), float64(float32(123456.789))})
+		case 2:
+			for { // a random finite float32 pattern
+				f := math.Float32frombits(uint32(r.Uint64()))
+				if f == f && !math.IsInf(float64(f), 0) {
+					return float64(f)
+				}
+			}
+		default:
+			return pickOf(r, []float64{2147483647, 2147483648, -2147483648, -2147483649, 4294967295, 4294967296, 9007199254740991, 9007199254740992, 16777216, 16777217, 65535, 65536})
+		}
 	case 0:
 		return pickOf(r, interestingFloats)
 	case 1:
